@@ -24,6 +24,7 @@ import (
 
 	jobSource "github.com/mimiro-io/datahub/internal/jobs/source"
 	"github.com/mimiro-io/datahub/internal/server"
+	"github.com/mimiro-io/datahub/internal/verifhook"
 )
 
 const defaultBatchSize = 10000
@@ -308,10 +309,12 @@ func (pipeline *IncrementalPipeline) sync(job *job, ctx context.Context) (int, e
 						return err
 					}
 
+					verifhook.Point("pipeline.beforeToken", job.id)
 					err = runner.store.StoreObject(server.JobDataIndex, job.id, syncJobState)
 					if err != nil {
 						return err
 					}
+					verifhook.Point("pipeline.afterToken", job.id)
 				}
 
 				if incomingEntityCount == 0 || // if this was the last page (empty) of a tokenized source
